@@ -47,22 +47,53 @@ def run(chk):
     chk.rule('C14-F', 'every lookup in structure_by_name / structure_by_longname uses a key that was upper-cased first')
     chk.rule('C14-N', 'find_child_reference never returns None: every path returns a reference or raises')
 
-    # ---- P
+    # ---- P  (stated on values with their temporaries inlined, so that local names do not matter)
+    from . import pat
     dt = ix.func('core.Field._do_traversal')
-    src = {norm(n) for n in own_nodes(dt.node) if isinstance(n, ast.Assign)}
-    ok1 = "component_name = '{0}_{1}'.format(self.datatype, component)" in src
-    ok2 = "subcomponent_name = '{0}_{1}'.format(component_datatype, subcomponent)" in src
-    ok3 = "component_datatype = component_ref[2]" in src and "component_ref = self.structure_by_name[component_name]['ref']" in src
-    chk.ob('C14-P', 'position j addresses <datatype>_j', ok1, '', dt.loc, key='C14-P|component')
-    chk.ob('C14-P', 'position k addresses <component datatype>_k', ok2 and ok3, '', dt.loc, key='C14-P|subcomponent')
+    cvar = svar = None
+    for n in own_nodes(dt.node):
+        if isinstance(n, ast.Assign) and isinstance(n.targets[0], ast.Tuple) and len(n.targets[0].elts) == 2 and \
+                isinstance(n.value, ast.Call) and norm(n.value.func) == 'self._get_traversal_children':
+            cvar, svar = norm(n.targets[0].elts[0]), norm(n.targets[0].elts[1])
+    if cvar is None:
+        raise AnalysisError('_do_traversal: the call of _get_traversal_children was not recognised')
+    cname = None
+    sname_ok = False
+    for n in own_nodes(dt.node):
+        if isinstance(n, ast.Assign) and len(n.targets) == 1 and isinstance(n.targets[0], ast.Name):
+            v = pat.inline_locals(n.value, dt.node)
+            if pat.fshape(v) == '{}_{}' and [norm(a_) for a_ in pat.fargs(v)] == ['self.datatype', cvar]:
+                cname = n.targets[0].id
+    for n in own_nodes(dt.node):
+        for x in ast.walk(n) if isinstance(n, (ast.Assign, ast.Expr, ast.Return)) else ():
+            if isinstance(x, ast.JoinedStr):
+                v = pat.inline_locals(x, dt.node)
+                if pat.fshape(v) == '{}_{}' and cname is not None and \
+                        [norm(a_) for a_ in pat.fargs(v)] == ["self.structure_by_name[%s]['ref'][2]" % cname, svar]:
+                    sname_ok = True
+    chk.ob('C14-P', 'position j addresses <datatype>_j', cname is not None,
+           'no name of the form <self.datatype>_<j> is built from the component position', dt.loc, key='C14-P|component')
+    chk.ob('C14-P', 'position k addresses <component datatype>_k', sname_ok,
+           'no name of the form <datatype of component j>_<k> is built from the subcomponent position', dt.loc,
+           key='C14-P|subcomponent')
     gtc = ix.func('core.Field._get_traversal_children')
-    src = {norm(n) for n in own_nodes(gtc.node) if isinstance(n, ast.Assign)}
-    ok = "parts = name.split('_')" in src and "prefix = '{0}_{1}'.format(parts[0], parts[1])" in src and \
-        'component = int(parts[2])' in src and 'subcomponent = int(parts[3]) if len(parts) == 4 else None' in src
-    chk.ob('C14-P', 'the path is split into <seg>_<i>, j and k', ok, '', gtc.loc, key='C14-P|split')
-    ok = any(isinstance(n, ast.Compare) and norm(n) == 'prefix != self.name' for n in own_nodes(gtc.node)) and \
-        'name = name.upper()' in src
-    chk.ob('C14-P', 'the path prefix must be the field\'s own name (case-folded)', ok, '', gtc.loc, key='C14-P|prefix')
+    namep = gtc.call_params()[0]
+    SPL = "%s.split('_')" % namep
+    rets = [pat.inline_locals(r.value, gtc.node) for r in own_nodes(gtc.node) if isinstance(r, ast.Return) and r.value is not None]
+    texts = {norm(r) for r in rets}
+    want = "(int(%s[2]), int(%s[3]) if len(%s) == 4 else None)" % (SPL, SPL, SPL)
+    ok = want in texts and texts <= {want, '(None, None)'}
+    chk.ob('C14-P', 'the path is split into <seg>_<i>, j and k', ok, 'returns %s' % sorted(texts)[:3], gtc.loc, key='C14-P|split')
+    folded = any(isinstance(n, ast.Assign) and norm(n) == '%s = %s.upper()' % (namep, namep) for n in own_nodes(gtc.node))
+    pref = "f'{%s[0]}_{%s[1]}'" % (SPL, SPL)
+    cmp_ok = False
+    for n in own_nodes(gtc.node):
+        if isinstance(n, ast.Compare) and len(n.ops) == 1 and isinstance(n.ops[0], (ast.Eq, ast.NotEq)):
+            sides = {norm(pat.inline_locals(n.left, gtc.node)), norm(pat.inline_locals(n.comparators[0], gtc.node))}
+            if sides == {pref, 'self.name'}:
+                cmp_ok = True
+    chk.ob('C14-P', 'the path prefix must be the field\'s own name (case-folded)', folded and cmp_ok,
+           'case fold %s, comparison of <seg>_<i> with self.name %s' % (folded, cmp_ok), gtc.loc, key='C14-P|prefix')
     # tables: rank = suffix for datatypes (all versions)
     npos = bad = 0
     for vt in vts:
@@ -110,7 +141,20 @@ def run(chk):
     ok = any(norm(n) == 'self.element_name = element_name.upper()' for n in own_nodes(pi.node) if isinstance(n, ast.Assign))
     chk.ob('C14-F', 'ElementProxy upper-cases the element name it indexes with', ok, '', pi.loc, key='C14-F|proxy')
     ei = ix.func('core.Element.__init__')
-    ok = any(norm(n).startswith('self.name = name.upper()') for n in own_nodes(ei.node) if isinstance(n, ast.Assign))
+    namep = ei.call_params()[0]
+    vals = [n.value for n in own_nodes(ei.node) if isinstance(n, ast.Assign) and any(norm(t) == 'self.name' for t in n.targets)]
+
+    def folded_or_none(v):
+        # name.upper(), or a conditional choice between that and None / the (None) name itself
+        if norm(v) == '%s.upper()' % namep:
+            return True
+        if isinstance(v, ast.IfExp):
+            alts = [v.body, v.orelse]
+            return any(norm(a_) == '%s.upper()' % namep for a_ in alts) and all(
+                norm(a_) in ('%s.upper()' % namep, 'None', namep) for a_ in alts) and \
+                (namep not in [norm(a_) for a_ in alts] or 'None' in norm(v.test))
+        return False
+    ok = bool(vals) and all(folded_or_none(v) for v in vals)
     chk.ob('C14-F', 'elements store their name upper-cased', ok, '', ei.loc, key='C14-F|element-name')
 
     # ---- K: writer and readers of the by-name / by-long-name maps transform their keys identically
